@@ -134,7 +134,7 @@ class Transpiler:
 			return self.py2cpp.transpile(self.app.module(source).entrypoint)
 
 
-REAL_CALL_BUDGET = 30.0   # seconds for one call into the real code (parse + transpile of one small module takes well under a second)
+REAL_CALL_BUDGET = 30.0   # CPU seconds for one call into the real code (parse + transpile of one small module takes well under a second)
 
 
 class BudgetExceeded(Exception):
@@ -143,7 +143,7 @@ class BudgetExceeded(Exception):
 
 
 class budget:
-	"""per-case wall budget for a call into the real code (SIGALRM; a no-op outside the main thread, where the caller's own
+	"""per-case CPU-time budget for a call into the real code (ITIMER_PROF / SIGPROF: independent of the load of the machine; a no-op outside the main thread, where the caller's own
 	subprocess / future timeouts apply)"""
 
 	def __init__(self, seconds: float, what: str) -> None:
@@ -153,16 +153,16 @@ class budget:
 		import threading
 		if threading.current_thread() is threading.main_thread():
 			def on_alarm(*_: Any) -> None:
-				raise BudgetExceeded(f'{self.what}: no result within {self.seconds:.0f} s')
-			self.old = signal.signal(signal.SIGALRM, on_alarm)
-			signal.setitimer(signal.ITIMER_REAL, self.seconds)
+				raise BudgetExceeded(f'{self.what}: no result within {self.seconds:.0f} s of CPU time')
+			self.old = signal.signal(signal.SIGPROF, on_alarm)
+			signal.setitimer(signal.ITIMER_PROF, self.seconds)
 			self.armed = True
 		return self
 
 	def __exit__(self, *exc: Any) -> None:
 		if self.armed:
-			signal.setitimer(signal.ITIMER_REAL, 0)
-			signal.signal(signal.SIGALRM, self.old)
+			signal.setitimer(signal.ITIMER_PROF, 0)
+			signal.signal(signal.SIGPROF, self.old)
 
 
 def run_cmd(args: list[str], timeout: float, cwd: str | None = None) -> tuple[int, str, str]:
@@ -172,6 +172,23 @@ def run_cmd(args: list[str], timeout: float, cwd: str | None = None) -> tuple[in
 		return p.returncode, p.stdout, p.stderr
 	except subprocess.TimeoutExpired:
 		return -9, '', f'timeout after {timeout:.0f} s: {args[0]}'
+
+
+def run_limited(args: list[str], cpu_s: int, wall_s: float, cwd: str | None = None, mem_kb: int = 0) -> tuple[int, str, str, str]:
+	"""run a compiled program under a CPU-time limit (`ulimit -S -t`: independent of the load of the machine) and a generous wall
+	limit. -> (returncode, stdout, stderr, '' | 'cpu-limit' | 'wall-timeout'). Only `cpu-limit` says something about the program
+	(it does not terminate); `wall-timeout` says the machine did not give it `cpu_s` seconds of CPU within `wall_s` seconds:
+	callers skip and count such a run, they never report it."""
+	mem = f'ulimit -S -v {int(mem_kb)} && ' if mem_kb else ''   # an endless loop that allocates ends in std::bad_alloc, not in the OOM killer
+	cmd = ['sh', '-c', f'{mem}ulimit -S -t {int(cpu_s)} && exec "$@"', 'sh', *args]
+	try:
+		p = subprocess.run(cmd, capture_output=True, text=True, timeout=wall_s, cwd=cwd, errors='replace')
+	except subprocess.TimeoutExpired as e:
+		out = (e.stdout or b'').decode('utf-8', 'replace') if isinstance(e.stdout, (bytes, bytearray)) else (e.stdout or '')
+		return -9, out, '', 'wall-timeout'
+	if p.returncode == -signal.SIGXCPU:
+		return p.returncode, p.stdout, p.stderr, 'cpu-limit'
+	return p.returncode, p.stdout, p.stderr, ''
 
 
 # ---------------------------------------------------------------------------------------------
@@ -514,7 +531,8 @@ class _Timeout(BaseException):
 
 
 def run_python(prog: dict[str, Any], time_limit: float = 3.0) -> dict[tuple[str, int], str]:
-	"""(fn, i) -> canonical result | 'raised' | 'out:<why>' (outside the agreement subset: discarded by the comparison)."""
+	"""(fn, i) -> canonical result | 'raised' | 'out:<why>' (outside the agreement subset: discarded by the comparison).
+	`time_limit` is CPU time (ITIMER_PROF): it does not depend on the load of the machine."""
 	res: dict[tuple[str, int], str] = {}
 	classes = prog.get('classes', {})
 
@@ -535,9 +553,9 @@ def run_python(prog: dict[str, Any], time_limit: float = 3.0) -> dict[tuple[str,
 	def on_alarm(*_: Any) -> None:
 		raise _Timeout()
 
-	old = signal.signal(signal.SIGALRM, on_alarm)
+	old = signal.signal(signal.SIGPROF, on_alarm)
 	try:
-		signal.setitimer(signal.ITIMER_REAL, time_limit)
+		signal.setitimer(signal.ITIMER_PROF, time_limit)
 		try:
 			exec(code, ns)
 		except _Timeout:
@@ -547,12 +565,12 @@ def run_python(prog: dict[str, Any], time_limit: float = 3.0) -> dict[tuple[str,
 		except Exception as e:  # noqa: BLE001
 			return all_out(f'module-level {type(e).__name__}')
 		finally:
-			signal.setitimer(signal.ITIMER_REAL, 0)
+			signal.setitimer(signal.ITIMER_PROF, 0)
 		for ent in prog['entries']:
 			fn = ns.get(ent['fn'])
 			for i, args in enumerate(ent['args']):
 				key = (ent['fn'], i)
-				signal.setitimer(signal.ITIMER_REAL, time_limit)
+				signal.setitimer(signal.ITIMER_PROF, time_limit)
 				try:
 					res[key] = canon(fn(*[list(a) if isinstance(a, list) else a for a in args]), classes)
 				except _Timeout:
@@ -565,9 +583,9 @@ def run_python(prog: dict[str, Any], time_limit: float = 3.0) -> dict[tuple[str,
 					# only exceptions raised by an explicit `raise` of the two stub classes are inside the subset
 					res[key] = 'raised' if type(e) in (RuntimeError, Exception) else f'out:{type(e).__name__}'
 				finally:
-					signal.setitimer(signal.ITIMER_REAL, 0)
+					signal.setitimer(signal.ITIMER_PROF, 0)
 	finally:
-		signal.signal(signal.SIGALRM, old)
+		signal.signal(signal.SIGPROF, old)
 	return res
 
 
@@ -652,15 +670,12 @@ class Cxx:
 		return base + '.bin', ''
 
 	@staticmethod
-	def run(exe: str, ns: str, time_limit: float = 4.0) -> tuple[dict[tuple[str, int], str], str]:
-		"""-> ((fn, i) -> text, abnormal end '' | 'timeout' | 'signal N' | 'exit N')."""
-		try:
-			p = subprocess.run([exe, ns], capture_output=True, text=True, timeout=time_limit, errors='replace')
-			end = '' if p.returncode == 0 else (f'signal {-p.returncode}' if p.returncode < 0 else f'exit {p.returncode}')
-			out = p.stdout
-		except subprocess.TimeoutExpired as e:
-			end = 'timeout'
-			out = (e.stdout or b'').decode('utf-8', 'replace') if isinstance(e.stdout, (bytes, bytearray)) else (e.stdout or '')
+	def run(exe: str, ns: str, cpu_limit: int = 4, wall_limit: float = 120.0) -> tuple[dict[tuple[str, int], str], str]:
+		"""-> ((fn, i) -> text, abnormal end '' | 'timeout' | 'wall-timeout' | 'signal N' | 'exit N'). `timeout` = the program used up
+		`cpu_limit` seconds of CPU time (an endless loop: a fact about the program, whatever the load of the machine); `wall-timeout` =
+		no result within `wall_limit` seconds of wall time although the CPU limit was not reached (a fact about the machine: skipped)."""
+		rc, out, _, why = run_limited([exe, ns], cpu_limit, wall_limit, mem_kb=1_000_000)
+		end = 'timeout' if why == 'cpu-limit' else why if why else '' if rc == 0 else (f'signal {-rc}' if rc < 0 else f'exit {rc}')
 		res: dict[tuple[str, int], str] = {}
 		for line in out.split('\n'):
 			parts = line.split('\t', 2)
@@ -786,9 +801,10 @@ class Pipeline:
 					return
 				for n in ix:
 					cpp, end = Cxx.run(exe, f'p{n}')
-					if end == 'timeout':
-						# a long but finite run on a loaded machine must not look like an endless loop: one generous retry
-						cpp, end = Cxx.run(exe, f'p{n}', time_limit=20.0)
+					if end == 'wall-timeout':
+						# the machine, not the program: no verdict depends on wall time (the CPU-time limit is what detects an endless loop)
+						results[n] = {'status': 'vacuous', 'why': 'c++ run skipped: wall timeout below the CPU-time limit', 'compared': 0, 'diffs': [], 'emitted': texts[n]}
+						continue
 					r = judge(progs[n], pys[n] or {}, cpp, end)
 					r['emitted'] = texts[n]
 					results[n] = r
